@@ -10,6 +10,7 @@ import CookModel.Lemmas.RoundtripShort
 import CookModel.Lemmas.RoundtripInter
 import CookModel.Lemmas.RoundtripStepX
 import CookModel.Lemmas.RoundtripBlock
+import CookModel.Lemmas.RoundtripInput
 /-
   C01  Printing a recipe as Cooklang and parsing it returns that recipe.
 
@@ -641,5 +642,70 @@ example : metaOK toyCharSpec [tk .word "prep".toList, tk .ws [' '], tk .word "ti
     { a := [tk .ws [' ']], c := [tk .ws [' ']] } = true := by decide
 example : metaOK toyCharSpec [tk .word ['a'], tk .colon [':'], tk .word ['b']] [tk .word ['v']] {} = false := by decide
 example : stepBlockOK (C01_exStepX.flatMap SegX.spell) = true := by decide
+
+/-! ### from the printed characters to the events -/
+
+/-- The link between the printer's characters and every theorem above: if the printed token list
+    `spec` is well spelled (`C01_lex_render`), the tokens `lexFrom off (render spec)` the lexer
+    produces from its characters spell `spec` (same kinds, same texts) and are a run of adjacent
+    tokens with well-formed escapes — exactly the hypotheses `Spells ts spec` and `RunAt …` of the
+    value, quantity, component, step and block theorems. -/
+theorem C01_lex_spells (cs : CharSpec) (off : Nat) (spec : List Tok) (h : WellSpelled cs spec) :
+    Spells (lexFrom cs off (render spec)) spec ∧ RunAt off (lexFrom cs off (render spec)) :=
+  rtin_lex_spells cs off spec h
+
+/-- A whole input that is one line: for a well-spelled token list without newline token that is
+    not all blank, printed as `render spec`, when the text has no front-matter fence, `PullParser`
+    (`pullEvents`) is `parse_block` run once on the lexer's tokens, which spell `spec` and are a
+    run.  With `C01_block_step` / `C01_block_section` / `C01_block_metadata` this gives the events
+    of a one-line recipe from its characters. -/
+theorem C01_input_single_block {α : Type} [Arith α] (cs : CharSpec) (ext : Ext) (spec : List Tok)
+    (h : WellSpelled cs spec) (hnl : ∀ u ∈ spec, u.kind ≠ .newline)
+    (hnb : spec.any (fun u => !isEmptyTok u.kind) = true) (hfm : parseFrontmatter cs (render spec) = none) :
+    pullEvents (α := α) cs ext (render spec) = runBlock cs ext true (lex cs (render spec)) #[] none ∧
+    Spells (lex cs (render spec)) spec ∧ RunAt (baseOff (lex cs (render spec))) (lex cs (render spec)) := by
+  obtain ⟨hsp, hrun⟩ := rtin_lex_spells cs 0 spec h
+  refine ⟨?_, hsp, hrun.base⟩
+  apply rtin_pullEvents_single cs ext _ hfm
+  · intro t ht
+    obtain ⟨u, hu, hk, -⟩ := hsp.mem ht
+    rw [hk]; exact hnl u hu
+  · rw [Bool.eq_false_iff]
+    intro hall
+    rw [List.any_eq_true] at hnb
+    obtain ⟨u, hu, hk⟩ := hnb
+    obtain ⟨t, ht, hkt, -⟩ := hsp.mem' hu
+    rw [List.all_eq_true] at hall
+    have := hall t ht
+    rw [hkt] at this; rw [this] at hk; cases hk
+
+/-- End to end for a one-line step: the characters `render (segs.flatMap SegX.spell)` of a segment
+    list satisfying `segsXOK`, well spelled (adjacent tokens do not fuse), without newline token,
+    starting a step (`stepBlockOK`), in a text without front-matter fence, are parsed by the whole
+    pull parser — lexer, block splitter, `parse_block` — to exactly `start step`, one event per
+    segment (text with the visible characters, components matching the intended ones), `stop step`:
+    no diagnostic, no panic.
+    Partial: one block on one line; multi-line steps, several blocks and the analysis pass are
+    covered by the splitter theorems of C05/C04 and by testing only. -/
+theorem C01_input_step_line_partial {α : Type} [Arith α] (cs : CharSpec) (ext : Ext) (segs : List SegX)
+    (hok : segsXOK cs ext segs = true) (h : WellSpelled cs (segs.flatMap SegX.spell))
+    (hnl : ∀ u ∈ segs.flatMap SegX.spell, u.kind ≠ .newline) (hb : stepBlockOK (segs.flatMap SegX.spell) = true)
+    (hfm : parseFrontmatter cs (render (segs.flatMap SegX.spell)) = none) :
+    ∃ (evs : List (Ev α)) (arr : Array (Ev α)),
+      pullEvents (α := α) cs ext (render (segs.flatMap SegX.spell)) = (arr, none) ∧
+      arr.toList = [.start .step] ++ evs ++ [.stop .step] ∧ SegsXEvs cs segs evs := by
+  have hb' := hb
+  simp only [stepBlockOK, Bool.and_eq_true] at hb'
+  obtain ⟨hpe, hsp, hrun⟩ := C01_input_single_block (α := α) cs ext _ h hnl hb'.2 hfm
+  obtain ⟨evs, arr, hrb, harr, hall⟩ := rtb_runBlock_step (α := α) segs cs ext true _ #[] none hsp hrun hok
+    (stepBlockOK_transfer hsp hb)
+  exact ⟨evs, arr, by rw [hpe, hrb], by simpa using harr, hall⟩
+
+/-- example: the one-line step `Boil @water{…} with @salt, ~soft boil {…} in #pot.` -/
+def C01_exLine : List SegX := C01_exStepX.take 8 ++ [.text [tk .dot ['.']]]
+example : segsXOK toyCharSpec C01_timerExt C01_exLine = true ∧ WellSpelled toyCharSpec (C01_exLine.flatMap SegX.spell) ∧
+    stepBlockOK (C01_exLine.flatMap SegX.spell) = true ∧
+    (C01_exLine.flatMap SegX.spell).all (fun u => u.kind != .newline) = true := by decide
+example : (parseFrontmatter toyCharSpec (render (C01_exLine.flatMap SegX.spell))).isNone = true := by decide
 
 end Cook
